@@ -8,6 +8,7 @@
 //   ndmap N s1..sN         -> the tuples handed to the callback, in call order: "a,b;c,d;..." ("-" when none)
 #include <covfie/core/utility/nd_map.hpp>
 #include <functional>
+#include <type_traits>
 #include <stdexcept>
 #include <covfie/core/utility/nd_size.hpp>
 #include <covfie/core/utility/numeric.hpp>
@@ -54,6 +55,19 @@ template <typename S, std::size_t N> std::string nd_forms(const S & s) {
     try { utility::nd_map<S>(fp, s); } catch (const std::exception & e) { return std::string("bad function-pointer callback died: ") + e.what(); }
     std::string o4 = any4 ? os.str() : "-";
     if (o4 != out[0]) return "bad function-pointer callback saw " + o4.substr(0, 200) + " | closure saw " + out[0].substr(0, 200);
+  }
+  { // (e) a generic callback that takes a forwarding reference and scribbles on its argument after recording it (its own copy: the
+    //     iteration must not depend on what a callback does to the tuple it was handed)
+    std::ostringstream os; bool any5 = false;
+    try {
+      utility::nd_map<S>([&](auto && t) {
+        if (any5) os << ";"; any5 = true;
+        for (std::size_t k = 0; k < N; ++k) { if (k) os << ","; os << static_cast<u64>(t[k]); }
+        if constexpr (!std::is_const_v<std::remove_reference_t<decltype(t)>>) { for (std::size_t k = 0; k < N; ++k) t[k] = static_cast<std::remove_reference_t<decltype(t[k])>>(t[k] + 3); }
+      }, s);
+    } catch (const std::exception & e) { return std::string("bad scribbling callback died: ") + e.what(); }
+    std::string o5 = any5 ? os.str() : "-";
+    if (o5 != out[0]) return "bad scribbling callback saw " + o5.substr(0, 200) + " | closure saw " + out[0].substr(0, 200);
   }
   if (out[1] != out[0]) return "bad std::function callback saw " + out[1].substr(0, 200) + " | closure saw " + out[0].substr(0, 200);
   if (out[2] != out[0]) return "bad owning temporary callback saw " + out[2].substr(0, 200) + " | closure saw " + out[0].substr(0, 200);
